@@ -7,7 +7,7 @@ Sandbox (fresh per worker, restored after every case that changed it):
     scratch/outer/{SENTINEL.TXT, A.TXT, SIBLING/S.TXT, SUB/B.TXT}       <- outside
     scratch/outer/mount/{A.TXT, SUB/{B.TXT, DEEP/C.TXT}, <long>.TXT}      <- C:
     scratch/outer/other/{SENTINEL.TXT, emount/{E.TXT, ESUB/F.TXT}}        <- E: = emount
-    D:, @:, Z: unmounted
+    D:, @:, Z: unmounted (Z: explicitly: pcbasic would otherwise mount it on the process cwd)
 
 Legs
   stmt   E1: every path of the bounded path grammar x 19 file statements x 3 current-directory
@@ -55,7 +55,7 @@ RULE = ('paths = prefix x component sequences (len<=2 over the full alphabet, le
 ASSUMPTIONS = [
     'stat-type probes (os.path.exists/isdir/isfile, os.statvfs) raise no CPython audit event and are not '
     'counted as access',
-    'paths under sys.prefix/base_prefix, the pcbasic tree (VERIF_REPO), /verif, /usr and /dev/null are the '
+    'paths under sys.prefix/base_prefix, the pcbasic tree (VERIF_REPO), /verif/{mc,checks,models}, /usr and /dev/null are the '
     'interpreter\'s own files, not access by a BASIC statement',
     'removing or writing the mount root directory itself (RMDIR "\\") counts as inside the mounted tree',
     'internal seam: impl.files.get_device(b"C:").get_native_cwd() is read as the canonical CHDIR state, '
@@ -73,7 +73,7 @@ F = [b'..', b'.', b'...', b'SUB', b'sub', b'DEEP', b'A.TXT', b'NEW', b'*.*', b'S
 M = [b'..', b'.', b'SUB', b'DEEP', b'A.TXT', b'NEW', b'*.*', b'SENTINEL.TXT', b'SIBLING', b'']
 K = [b'..', b'.', b'SUB', b'A.TXT', b'SENTINEL.TXT', b'']
 PFX_MOUNTED = [b'', b'\\', b'C:', b'c:', b'C:\\', b'E:', b'E:\\']
-PFX_UNMOUNTED = [b'D:', b'D:\\', b'@:']
+PFX_UNMOUNTED = [b'D:', b'D:\\', b'@:', b'Z:']
 
 KINDS = [
     ('OPEN-I', b'OPEN "%s" FOR INPUT AS 1:LINE INPUT#1,A$:CLOSE 1'),
@@ -285,9 +285,9 @@ class Env(object):
         self.exempt = tuple(sorted(set(fsmon.real(p) for p in (
             sys.prefix, sys.base_prefix, sys.exec_prefix,
             os.path.dirname(os.path.dirname(os.path.abspath(pcbasic.__file__))),
-            os.path.dirname(os.path.dirname(os.path.abspath(__file__))),
             '/usr',
-        ))))
+        ) + tuple(os.path.join(os.path.dirname(os.path.dirname(os.path.abspath(__file__))), d)
+                  for d in ('mc', 'checks', 'models')))))
         self.exempt_files = ('/dev/null',)
         self.session = None
         self.new_session()
@@ -380,12 +380,14 @@ def make_line(cfg, stmt):
     return pre + stmt
 
 
-def judge(part, e, cfg, kind, path, line, r, outside, out_changed, sig, case):
+def judge(part, e, cfg, kind, path, line, r, outside, out_changed, sig, case, path2=None):
     """Turn monitor results into violations."""
     if r.exc is not None:
         part.violation('host-exception/%s/%s' % (kind, H.exc_key(r.exc)),
                        '%r -> %r' % (line, r.exc), case)
     shape = classify(cfg, path)
+    if path2 is not None:
+        shape += '>' + classify(cfg, path2)
     if out_changed:
         before = dict((x[0], x[1:]) for x in e.box.pristine[0])
         after = dict((x[0], x[1:]) for x in sig[0])
@@ -426,7 +428,7 @@ def run_case(part, e, cfg, kind, path, path2=None):
     part.outcome(label)
     if not (cfg == 0 and r.err is None):
         part.classes.add(label)
-    judge(part, e, cfg, kind, path, line, r, outside, out_changed, sig, case)
+    judge(part, e, cfg, kind, path, line, r, outside, out_changed, sig, case, path2)
     # restore
     if out_changed or in_changed:
         e.box.restore()
@@ -498,15 +500,18 @@ def _expand_chdir(hist, ops):
             judge(tmp, e, 0, 'CHDIR', op, line, r, outside, out_changed, sig, None)
             viols = [(k, w + ' after CHDIR history %r' % (list(hist),)) for k, w, _ in tmp.viol]
             cw = e.cwds()
+            escaped = False
             for drive, c, root in ((b'C', cw[0], e.box.mount), (b'E', cw[1], e.box.emount)):
                 rc = fsmon.real(c)
                 if not fsmon.under(rc, (root,)):
+                    escaped = True
                     viols.append(('effect/%s/CHDIR/cwd-outside-mount' % classify(0, op),
                                   'CHDIR %r after %r: current directory of %s: is %s, outside the mount' % (
                                       op, list(hist), drive.decode(), rc)))
             info = 'chdir:%s' % ('exc' if r.exc is not None else (r.err if r.err is not None else 'ok'))
             key = None
-            if r.exc is None and r.err is None:
+            if r.exc is None and r.err is None and not escaped:
+                # (a state whose cwd is outside a mount is reported once and not expanded further)
                 key = (os.path.relpath(fsmon.real(cw[0]), e.box.mount),
                        os.path.relpath(fsmon.real(cw[1]), e.box.emount))
             if out_changed or in_changed:
@@ -546,7 +551,7 @@ def legs(ctx):
         for ch in chunked(paths, size):
             shards.append((cfg, ch))
     out = [Leg('stmt', shards, work_stmt, exhaustive=True,
-               bound='%d path strings (7 mounted + 3 unmounted prefixes; all component sequences of '
+               bound='%d path strings (7 mounted + 4 unmounted prefixes; all component sequences of '
                      'length <=2 over %d components, length 3 over %d%s; backslash, slash and mixed '
                      'separators) x %d statement kinds x %d cwd configurations' % (
                          len(paths), len(F), len(K) if ctx.quick else len(M),
@@ -557,7 +562,7 @@ def legs(ctx):
     out.append(Leg('name', shards, work_name, exhaustive=True,
                    bound='NAME p AS q for all %d ordered pairs of %d paths x %d cwd configurations' % (
                        len(pairs), len(np_), len(CFGS))))
-    depth = 3 if ctx.quick else 4
+    depth = 6
     out.append(Leg('chdir', [(ctx.quick, depth)], work_chdir, exhaustive=True, serial=True,
                    bound='BFS over CHDIR histories, %d CHDIR arguments per state, depth <= %d or fixed point '
                          '(canonical state = native cwd of C: and E:)' % (len(chdir_ops(ctx.quick)), depth)))
